@@ -503,7 +503,7 @@ fn run_plan(out: &mut Out, seed: u64, shard: u64, i: u64, per_lib: u64, cap: usi
                                 let (a, b) = (names(want), names(&cur));
                                 let diff: Vec<&String> = a.iter().filter(|x| !b.contains(x)).chain(b.iter().filter(|x| !a.contains(x))).collect();
                                 let merged = !diff.is_empty()
-                                    && diff.iter().all(|d| plan.nodes.iter().any(|n| matches!(n, PNode::Import { name, from_name, .. } if name != from_name && (name == *d || from_name == *d))));
+                                    && diff.iter().all(|d| plan.nodes.iter().any(|n| matches!(n, PNode::Import { name, from_name, .. } if name != from_name && (name == *d || from_name == *d || wac_types::are_semver_compatible(from_name, d.as_str())))));
                                 out.fail(
                                     &id,
                                     if merged {
